@@ -530,6 +530,66 @@ func main() {
 		x := t.mk(r)
 		emit("RT "+t.name, guard(func() string { return roundTrip(t, x) }))
 	}
+	// ---- 1b. "absent and empty values are equivalent": values whose integer fields were never set (nil inside) - what a
+	// binary decode of a message without that field yields - must go through JSON and come back
+	absent := []struct {
+		name string
+		mk   func() interface{}
+		ptr  func() interface{}
+	}{
+		{"Int", func() interface{} { return sdk.Int{} }, func() interface{} { return &sdk.Int{} }},
+		{"Coin", func() interface{} { return sdk.Coin{Denom: "upokt"} }, func() interface{} { return &sdk.Coin{} }},
+		{"MsgSend", func() interface{} { return posTypes.MsgSend{FromAddress: randAddr(r), ToAddress: randAddr(r)} }, func() interface{} { return &posTypes.MsgSend{} }},
+		{"MsgDAOTransfer", func() interface{} {
+			return govTypes.MsgDAOTransfer{FromAddress: randAddr(r), ToAddress: randAddr(r), Action: govTypes.DAOTransferString}
+		}, func() interface{} { return &govTypes.MsgDAOTransfer{} }},
+		{"MsgStake", func() interface{} { return posTypes.MsgStake{PubKey: crypto.GenerateEd25519PrivKey().PublicKey()} }, func() interface{} { return &posTypes.MsgStake{} }},
+		{"GovGenesis", func() interface{} { return govTypes.GenesisState{Params: govParams()} }, func() interface{} { return &govTypes.GenesisState{} }},
+	}
+	for i := 0; i < 60; i++ {
+		t := absent[i%len(absent)]
+		emit("RZ "+t.name, guard(func() string {
+			js, err := cdc.MarshalJSON(t.mk())
+			if err != nil {
+				return "json-encode-error:" + strings.ReplaceAll(err.Error(), " ", "_")
+			}
+			q := t.ptr()
+			if err := cdc.UnmarshalJSON(js, q); err != nil {
+				return "json-decode-error:" + strings.ReplaceAll(err.Error(), " ", "_") + ":" + strings.ReplaceAll(string(js), " ", "")
+			}
+			return "ok"
+		}))
+	}
+	// ---- 1c. malformed JSON must be refused: a public key of the wrong length under a key-type tag
+	for i := 0; i < 80; i++ {
+		priv := crypto.GenerateEd25519PrivKey()
+		var v interface{}
+		var p func() interface{}
+		switch i % 3 {
+		case 0:
+			v, p = posTypes.MsgStake{PubKey: priv.PublicKey(), Value: randInt(r)}, func() interface{} { return &posTypes.MsgStake{} }
+		case 1:
+			v, p = authTypes.StdSignature{PublicKey: priv.PublicKey(), Signature: r.Bytes(64)}, func() interface{} { return &authTypes.StdSignature{} }
+		default:
+			v, p = &authTypes.BaseAccount{Address: sdk.Address(priv.PublicKey().Address()), Coins: randCoins(r), PubKey: priv.PublicKey()}, func() interface{} { return &authTypes.BaseAccount{} }
+		}
+		js, _ := cdc.MarshalJSON(v)
+		good := hex.EncodeToString(priv.PublicKey().RawBytes())
+		n := []int{31, 33, 1, 64, 0, 30}[r.Intn(6)]
+		bad := hex.EncodeToString(r.Bytes(n))
+		if !strings.Contains(string(js), good) {
+			emit("MJ", "key-not-found-in-json")
+			continue
+		}
+		mal := []byte(strings.Replace(string(js), good, bad, 1))
+		emit(fmt.Sprintf("MJ %d", n), guard(func() string {
+			q := p()
+			if err := cdc.UnmarshalJSON(mal, q); err != nil {
+				return "rejected"
+			}
+			return fmt.Sprintf("accepted-a-%d-byte-ed25519-key", n)
+		}))
+	}
 	// ---- 2. sign bytes: same logical content => same bytes; different content => different bytes
 	for i := 0; i < *n/8; i++ {
 		tx := randTx(r)
